@@ -40,6 +40,13 @@ package regprocessor
 // (so every subnet with a non-zero weight is chosen for the draws in its own interval)
 //@   atcall getRandUint32IPv4#1 before: assert @C12: exists k int :: 0 <= k && k < len(p.minOverrideSubnetsCumulativeWeights) && randVal < p.minOverrideSubnetsCumulativeWeights[k] && (forall j int :: 0 <= j && j < k ==> !(randVal < p.minOverrideSubnetsCumulativeWeights[j])) && ipNet == p.minOverrideSubnets[k].CIDR.IPNet
 //@   atcall getRandUint32IPv4#2 before: assert @C12: exists k int :: 0 <= k && k < len(p.prefixOverrideSubnetsCumulativeWeights) && randVal < p.prefixOverrideSubnetsCumulativeWeights[k] && (forall j int :: 0 <= j && j < k ==> !(randVal < p.prefixOverrideSubnetsCumulativeWeights[j])) && ipNet == p.prefixOverrideSubnets[k].CIDR.IPNet
+// C12 "registrar overrides of transport parameters only when the client has not disabled them": the configured
+// overrides and the prefix override (which rewrites the transport parameters) are reached only for a client that has
+// not set DisableRegistrarOverrides
+//@   atcall Overrides).Override before: assert @C12: c2s != nil && !(c2s.DisableRegistrarOverrides != nil && *c2s.DisableRegistrarOverrides)
+//@   atcall overridePrefix before: assert @C12: c2s != nil && !(c2s.DisableRegistrarOverrides != nil && *c2s.DisableRegistrarOverrides)
+// ... and the response of a client that disabled overrides carries no transport parameters at all
+//@   ensures @C12: result1 == nil && old(c2sPayload != nil && c2sPayload.RegistrationPayload != nil && c2sPayload.RegistrationPayload.DisableRegistrarOverrides != nil && *c2sPayload.RegistrationPayload.DisableRegistrarOverrides) ==> result0.TransportParams == nil
 //@   atcall Select#1 before: assert @C13: rheld(&p.selectorMutex) > 0
 //@   atcall Select#1 before: snap a1 := acq(&p.selectorMutex)
 //@   atcall Select#1 before: snap s1 := p.ipSelector
